@@ -613,9 +613,12 @@ func genKeyExprCase(t *rapid.T) sortCase {
 	c := sortCase{}
 	genTable(t, &c)
 	genKeys(t, &c, 40)
-	c.From = []string{"join1", "alias", ""}[weighted(t, "from", []int{15, 25, 60})]
-	if c.From == "join1" {
-		c.Star = false // the joined one-row table would add a column
+	c.From = []string{"selfjoin", "join1", "alias", ""}[weighted(t, "from", []int{15, 12, 23, 50})]
+	if c.From == "selfjoin" && len(c.Rows) > 40 {
+		c.From = "alias" // the join evaluates its condition for every pair of rows
+	}
+	if c.From == "join1" || c.From == "selfjoin" {
+		c.Star = false // the joined table would add columns
 	}
 	big, _, _, _ := bigIntInfo(c.Rows, c.Keys)
 	for i := range c.Keys {
@@ -636,7 +639,7 @@ func genKeyExprCase(t *rapid.T) sortCase {
 			ops = append(ops, "datetime", "datetime")
 		}
 		e := &keyExpr{Op: pickW(t, "op", ops)}
-		if e.Op == "qualified" && c.From == "alias" {
+		if e.Op == "qualified" && (c.From == "alias" || c.From == "selfjoin") {
 			e.Op = "plain" // the table has an alias: the qualifier is the alias anyway
 		}
 		switch e.Op {
@@ -662,7 +665,7 @@ func genKeyExprCase(t *rapid.T) sortCase {
 			e.INulls = fw.Pick(t, "inulls", []string{"", "", "FIRST", "LAST"})
 		}
 		e.ViaAlias = !c.Star && chance(t, "viaAlias", 30)
-		if e.Op == "plain" && !e.ViaAlias && c.From != "alias" {
+		if e.Op == "plain" && !e.ViaAlias && c.From != "alias" && c.From != "selfjoin" {
 			k.Expr = nil
 			continue
 		}
@@ -700,6 +703,12 @@ func pctText(p100 int64) string {
 func (c sortCase) keyColRef(k keyItem) string {
 	switch {
 	case c.From == "alias":
+		return "a." + colName(k.Col)
+	case c.From == "selfjoin":
+		// the table joined with itself on the unique id: odd key columns are read from the second copy
+		if k.Col%2 == 1 {
+			return "b." + colName(k.Col)
+		}
 		return "a." + colName(k.Col)
 	case k.Expr != nil && k.Expr.Op == "qualified":
 		return "t." + colName(k.Col)
@@ -754,7 +763,7 @@ func (c sortCase) keyExprSQL(k keyItem) string {
 		return "DENSE_RANK()" + over("")
 	case "row_number":
 		idc := "id"
-		if c.From == "alias" {
+		if c.From == "alias" || c.From == "selfjoin" {
 			idc = "a.id"
 		}
 		return "ROW_NUMBER()" + over(", "+idc)
@@ -780,7 +789,7 @@ func (c sortCase) orderBy() string {
 		items = append(items, s)
 	}
 	if c.TieBreak != "" {
-		if c.From == "alias" {
+		if c.From == "alias" || c.From == "selfjoin" {
 			items = append(items, "a.id "+c.TieBreak)
 		} else {
 			items = append(items, "id "+c.TieBreak)
@@ -886,15 +895,19 @@ func (c sortCase) aliasItems() []string {
 
 func (c sortCase) selectList() string {
 	var cols []string
+	q := ""
+	if c.From == "selfjoin" {
+		q = "a."
+	}
 	switch {
 	case c.IDOnly:
-		cols = []string{"id"}
-	case c.Star:
+		cols = []string{q + "id"}
+	case c.Star && q == "":
 		cols = []string{"*"}
 	default:
-		cols = []string{"id"}
+		cols = []string{q + "id"}
 		for j := range c.Kinds {
-			cols = append(cols, colName(j))
+			cols = append(cols, q+colName(j))
 		}
 	}
 	return strings.Join(append(cols, c.aliasItems()...), ", ")
@@ -906,6 +919,8 @@ func (c sortCase) fromSQL() string {
 		return c.tableRef() + " AS a"
 	case "join1":
 		return c.tableRef() + " CROSS JOIN (SELECT 1 AS one) AS j"
+	case "selfjoin":
+		return c.tableRef() + " AS a JOIN " + c.tableRef() + " AS b ON a.id = b.id"
 	}
 	return c.tableRef()
 }
@@ -1884,16 +1899,16 @@ func TestC07Sort(t *testing.T) {
 	fw.Run(t, fw.Spec[sortCase]{
 		ID: "C07", Name: "sort", Quick: 10000, Thorough: 200000,
 		Gen: genSortCase, Check: checkCase,
-		Rule: "tables of 0-12 rows (10%: 160-400 rows with CPU 4) from a CSV file or a typed temporary table, 1-3 key columns of numbers (incl. neighbouring integers beyond 2^53 that share a float64 image) / datetimes / text drawn from small pools (duplicates) with 0-40% NULLs; ORDER BY over 1-3 of them with ASC/DESC and NULLS FIRST/LAST, optionally id as unique last key; oracle: every output row is an input row (by id, cell for cell), none twice, all present, and output position i holds a row of the tie group that the reference order (documented comparison ladder, documented NULL default) has at position i; non-trivial = >=2 rows and (>=2 keys or duplicates in the first key or NULLs), distinct by (key kinds/directions/null positions, tiebreak, source, tie structure, size class, select list)",
+		Rule:        "tables of 0-12 rows (10%: 160-400 rows with CPU 4) from a CSV file or a typed temporary table, 1-3 key columns of numbers (incl. neighbouring integers beyond 2^53 that share a float64 image) / datetimes / text drawn from small pools (duplicates) with 0-40% NULLs; ORDER BY over 1-3 of them with ASC/DESC and NULLS FIRST/LAST, optionally id as unique last key; oracle: every output row is an input row (by id, cell for cell), none twice, all present, and output position i holds a row of the tie group that the reference order (documented comparison ladder, documented NULL default) has at position i; non-trivial = >=2 rows and (>=2 keys or duplicates in the first key or NULLs), distinct by (key kinds/directions/null positions, tiebreak, source, tie structure, size class, select list)",
 		Assumptions: []string{assumeDomain, "tie order is free: rows with equal keys are only required to occupy their group's positions"},
 	})
 }
 
 func TestC07KeyExpr(t *testing.T) {
 	fw.Run(t, fw.Spec[sortCase]{
-		ID: "C07", Name: "key_expr", Quick: 10000, Thorough: 200000,
+		ID: "C07", Name: "key_expr", Quick: 8000, Thorough: 160000,
 		Gen: genKeyExprCase, Check: checkCase,
-		Rule: "tables, key lists and cuts as in 'sort' / 'cut'; 75% of the ORDER BY items are expressions over their key column instead of the bare name: table-qualified name, k + 0, 2 * k, k * -1, ABS(k) (numbers), UPPER / LOWER / k || '' (text), DATETIME(k) (datetimes), COALESCE(k, c) and CASE WHEN k IS NULL THEN c ELSE k END with a constant of the column's kind, RANK() / DENSE_RANK() / ROW_NUMBER() OVER (ORDER BY k [ASC|DESC] [NULLS FIRST|LAST][, id]), a constant; 30% of them are written as a select-list item 'expr AS x' with ORDER BY naming the alias; FROM is the table, the table under an alias (keys qualified with it) or the table cross-joined with a one-row derived table; oracle: the reference computes the value of every expression per row (negation / absolute value numerically, NULL replacement, rank / dense rank / row number from the reference order of the inner key) and then applies the 'sort' / 'cut' oracle to these derived columns; non-trivial as in 'sort' / 'cut' (on the derived keys), distinct additionally by (expression kinds, alias use, FROM shape)",
+		Rule: "tables, key lists and cuts as in 'sort' / 'cut'; 75% of the ORDER BY items are expressions over their key column instead of the bare name: table-qualified name, k + 0, 2 * k, k * -1, ABS(k) (numbers), UPPER / LOWER / k || '' (text), DATETIME(k) (datetimes), COALESCE(k, c) and CASE WHEN k IS NULL THEN c ELSE k END with a constant of the column's kind, RANK() / DENSE_RANK() / ROW_NUMBER() OVER (ORDER BY k [ASC|DESC] [NULLS FIRST|LAST][, id]), a constant; 30% of them are written as a select-list item 'expr AS x' with ORDER BY naming the alias; FROM is the table, the table under an alias (keys qualified with it), the table cross-joined with a one-row derived table, or the table joined with itself on the unique id (keys taken alternately from the two copies); oracle: the reference computes the value of every expression per row (negation / absolute value numerically, NULL replacement, rank / dense rank / row number from the reference order of the inner key) and then applies the 'sort' / 'cut' oracle to these derived columns; non-trivial as in 'sort' / 'cut' (on the derived keys), distinct additionally by (expression kinds, alias use, FROM shape)",
 		Assumptions: []string{assumeDomain, assumeNeg, assumePct,
 			"order-preserving expressions (k + 0, 2 * k, UPPER, LOWER, || '', DATETIME, qualified names) are taken to keep the order and the ties of their column; arithmetic is not applied to integers beyond 2^53 (integer overflow and float rounding belong to the arithmetic property)",
 			"the values of RANK / DENSE_RANK / ROW_NUMBER are computed from the reference order of the inner key (their definition is checked by C17); boolean-valued expressions (k IS NULL) are not used as keys (booleans are outside the quantifier)"},
@@ -1904,7 +1919,7 @@ func TestC07Cut(t *testing.T) {
 	fw.Run(t, fw.Spec[sortCase]{
 		ID: "C07", Name: "cut", Quick: 24000, Thorough: 480000,
 		Gen: genCutCase, Check: checkCase,
-		Rule: "tables and ORDER BY as in 'sort' (50% with unique id tiebreak, 6% without ORDER BY) plus LIMIT n / p PERCENT [ONLY | WITH TIES] [OFFSET m], the FETCH FIRST|NEXT spelling, or OFFSET alone; n, m from {negative, 0, 1, middle, count-1, count, count+1, beyond}, p from {negative, 0, fractional, whole-row, 100, >100}; oracle: reference window [m, m+n) over the reference order (PERCENT of the pre-offset count, WITH TIES extended to the end of the last kept row's tie group, ignored without ORDER BY), output length equals the window's and position i holds a row of the tie group at window position i (exact sequence when the keys are unique; key-tuple multiset otherwise); non-trivial = ORDER BY present, (>=2 keys or duplicates in the first key or NULLs) and the cut removes >=1 and keeps >=1 row, distinct by (key kinds/directions/null positions, tiebreak, limit kind, boundary class)",
+		Rule: "tables and ORDER BY as in 'sort' (50% with unique id tiebreak, 6% without ORDER BY) plus LIMIT n / p PERCENT [ONLY | WITH TIES] [OFFSET m], the FETCH FIRST|NEXT spelling, or OFFSET alone; n, m from {negative, 0, 1, middle, count-1, count, count+1, beyond}, p from {negative, 0, fractional, whole-row, 100, >100}; the counts are written as literals, strings ('3', ' 3 '), integral floats (3.0), expressions ((2 + 1)), subqueries ((SELECT COUNT(*) FROM t) - d), percentages also as strings and products; 15% read them from variables (the query runs twice, the second run is judged), 12% are placeholders of a prepared statement that is first executed with other counts (the second execution is judged); oracle: reference window [m, m+n) over the reference order (PERCENT of the pre-offset count, WITH TIES extended to the end of the last kept row's tie group, ignored without ORDER BY), output length equals the window's and position i holds a row of the tie group at window position i (exact sequence when the keys are unique; key-tuple multiset otherwise); non-trivial = ORDER BY present, (>=2 keys or duplicates in the first key or NULLs) and the cut removes >=1 and keeps >=1 row, distinct by (key kinds/directions/null positions, tiebreak, limit kind, boundary class)",
 		Assumptions: []string{assumeDomain, assumeNeg, assumePct,
 			"without ORDER BY the kept rows are compared with the same query without the limit clause, when two runs of that query return the same order"},
 	})
